@@ -45,6 +45,32 @@ func VfC11_Nesting() {
 	nd.Assert(err != nil, "array nesting beyond a fixed limit is rejected, not recursed into")
 }
 
+// VfC11_StackBound: the decoder's stack use is bounded by the protocol's declared limits, not by
+// how much the peer sends: a long run of message fragments of one kind (empty inline lines, blank
+// lines, null arrays, empty arrays, null bulks, nested arrays) before a message never makes the
+// call stack at the decoder's reads deeper than a fixed multiple of the nesting limit.
+func VfC11_StackBound() {
+	fillers := []string{"\r\n", " \r\n", "\n", "*-1\r\n", "*0\r\n", "$-1\r\n", "*1\r\n", "+\r\n", "*2\r\n:1\r\n"}
+	f := fillers[nd.Concrete(nd.Choice("filler", len(fillers)))]
+	n := nd.Param("repeat", 200)
+	var data []byte
+	for i := 0; i < n; i++ {
+		data = append(data, f...)
+	}
+	data = append(data, ':', '1', CR, LF)
+	rd := &vfChunkReader{data: data, fixed: 3}
+	dec := newDecoder(rd, 32)
+	nd.PanicLabel("stack-bound")
+	for k := 0; k < n+1; k++ {
+		if _, err := dec.Decode(); err != nil {
+			nd.Cover("rejected")
+			break
+		}
+	}
+	nd.Assert(rd.maxDepth-rd.minDepth <= 6*(maxArrayDepth+2), "the decoder's call stack stays within a fixed multiple of the nesting limit however long the input is")
+	nd.Cover("decoded-to-the-end")
+}
+
 // VfC11_Redirection: an error reply whose first word is MOVED/ASK (any case) followed by arbitrary
 // bytes never crashes the backend reader; the request is answered with an error or re-sent.
 func VfC11_Redirection() {
